@@ -641,6 +641,56 @@ def r14_5(prog: Program, chk: Check) -> None:
     chk.ob("R14.5", "value::union-equality-model::no-crash", not crashes, site, f"{len(crashes)} crashes" + (f"; first: {crashes[0]}" if crashes else ""), witness=crashes[:3])
 
 
+# ------------------------------------------------------------------- R14.6
+def r14_6(prog: Program, chk: Check) -> None:
+    from . import container_model as cmod
+
+    chk.rule(
+        "R14.6",
+        "a union accepts each of its operands and itself, whatever its size, as a finite model: unions of 2, 9, 10 and 15 members are built from literals (ints, strings, and - among "
+        "them - unhashable ones: a list, a dict), classes and container types; MultiValuedValue.can_assign with _get_known_subvals (the lookup table of unions of ten or more members) "
+        "is interpreted from the AST (the container model of C03 R03.f) and must accept every operand, the union of any two operands, and the whole union",
+        floor=3,
+    )
+    m = cmod.ContainerModel(prog)
+    lits = [("lit", i) for i in range(13)]
+    extras = [("lit", "a"), ("lit", ["x", "y"]), ("lit", {"k": 1}), ("cls", str), ("list", ("cls", int)), ("lit", (1, 2)), ("lit", None)]
+    unions = []
+    for size in (2, 9, 10, 15):
+        for rot in range(len(extras)):
+            ex = extras[rot:] + extras[:rot]
+            k = min(3, size - 1)
+            members = tuple(ex[:k]) + tuple(lits[: size - k])
+            unions.append(members)
+            unions.append(tuple(reversed(members)))
+    rejected, crashes, unsupported = [], [], []
+    n = 0
+    for members in unions:
+        spec = ("union", members)
+        U = m.value_of(spec)
+        d = {"union of": len(members), "members": cmod.spec_str(spec)[:120]}
+        cases = [("operand", x) for x in members] + [("two operands", ("union", (members[0], members[-1])))] + [("itself", spec)]
+        for what, other in cases:
+            n += 1
+            try:
+                r = m.can_assign(U, m.value_of(other))
+            except AnchorError as e:
+                unsupported.append({**d, "why": str(e)[:300]})
+                break
+            if isinstance(r, tuple):
+                crashes.append({**d, what: cmod.spec_str(other)[:80], "error": r[1]})
+            elif not r:
+                rejected.append({**d, what + " rejected": cmod.spec_str(other)[:80]})
+    chk.model_evaluations += n
+    site = prog.site("value", prog.find_method("MultiValuedValue", "_get_known_subvals")[1])  # type: ignore[index]
+    rejected.sort(key=lambda x: (x["union of"], len(repr(x))))
+    chk.ob("R14.6", "value::union-model::a union accepts each operand, two operands and itself", not rejected, site, f"{len(unions)} unions, {n} questions, {len(rejected)} rejections" + (f"; smallest: {rejected[0]}" if rejected else ""), witness=rejected[:5])
+    chk.ob("R14.6", "value::union-model::no-crash", not crashes, site, f"{len(crashes)} crashes" + (f"; first: {crashes[0]}" if crashes else ""), witness=crashes[:3])
+    chk.ob("R14.6", "value::union-model::large unions take the lookup table", any(len(u) >= 10 for u in unions), site, "unions of ten or more members are in the domain")
+    if unsupported:
+        raise AnchorError(f"{len(unsupported)} unions cannot be modelled; first: {unsupported[0]}")
+
+
 def run(prog: Program, chk: Check) -> None:
     guard(chk, r14_1, prog, chk)
     guard(chk, r14_1b, prog, chk)
@@ -649,3 +699,4 @@ def run(prog: Program, chk: Check) -> None:
     guard(chk, r14_3, prog, chk)
     guard(chk, r14_4, prog, chk)
     guard(chk, r14_5, prog, chk)
+    guard(chk, r14_6, prog, chk)
